@@ -60,7 +60,7 @@ pub open spec fn exec_post(st: StoreV, st2: StoreV, c: Seq<char>, sender: Addr, 
             && match_attrs(st, attrs, ask_id@, bid_id@, price@, size.v as int),
         ExecuteMsg::ModifyContract { approvers, executors, ask_fee_rate, ask_fee_account, bid_fee_rate, bid_fee_account,
                                      ask_required_attributes, bid_required_attributes } =>
-            is_member(info_of(st).executors@, sender)
+            is_member(info_of(st).executors@, sender) && funds.len() == 0
             && side_frozen(asks_open(st), info_of(st).ask_fee_info, ask_fee_rate, ask_required_attributes)
             && side_frozen(bids_open(st), info_of(st).bid_fee_info, bid_fee_rate, bid_required_attributes)
             && ((asks_open(st) || bids_open(st)) && approvers is Some ==> approvers_kept(info_of(st).approvers@, approvers->0@))
